@@ -209,6 +209,9 @@ def run(prog, chk):
                 if rhs is not None and any(isinstance(c, ast.Call) and isinstance(c.func, ast.Attribute) and c.func.attr.startswith("get_")
                                            for c in ast.walk(rhs)):
                     tainted = True
+                if rhs is not None and any(isinstance(c, ast.Call) and (dotted(c.func) or "") in ("byte_ord", "ord", "struct.unpack", "int.from_bytes")
+                                           for c in ast.walk(rhs)):
+                    tainted = True      # a number decoded straight from received bytes
                 if dn.kind == "entry" and nm in ("algorithm", "reason", "code", "kind", "method"):
                     tainted = True
         if not tainted:
